@@ -66,7 +66,7 @@ class CDCBoard(Mon):
         self.showl = [sink.valid, sink.ready, source.valid, source.ready, in_cnt, out_cnt]
 
 
-def build_cdc(depth, buffered, K, kind="cdc"):
+def build_cdc(depth, buffered, K, kind="cdc", third_clock=False):
     from litex.soc.interconnect import stream
     lay = [("data", 2)]
 
@@ -80,11 +80,15 @@ def build_cdc(depth, buffered, K, kind="cdc"):
                 from litex.soc.cores import uart
                 self.submodules.dut = dut = uart._get_uart_fifo(depth, sink_cd="wr", source_cd="rd")
             self.submodules.sb = CDCBoard(dut.sink, dut.source, "wr", "rd", wit_n=depth + 1)
+            if third_clock:
+                # an unrelated `sys` clock runs next to the two user domains: nothing of the crossing may live in it
+                self.heartbeat = Signal(4, name_override="sys_heartbeat")
+                self.sync.sys += self.heartbeat.eq(self.heartbeat + 1)
     top = Top()
     sb = top.sb
-    name = "%s_d%d%s" % (kind, depth, "b" if buffered else "")
+    name = "%s_d%d%s%s" % (kind, depth, "b" if buffered else "", "_sysclk" if third_clock else "")
     return H(name, top, sb.free, rigid=[sb.N], assume=[sb.no_ovf], bad=dict(spurious=sb.bad_spurious, data=sb.bad_data),
-             witness=dict(pointer_wrap=sb.w_n), K=K, domains=["rd", "wr"], multiclock=True, meta=True,
+             witness=dict(pointer_wrap=sb.w_n), K=K, domains=["rd", "wr"] + (["sys"] if third_clock else []), multiclock=True, meta=True,
              bad_tick=dict(spurious="rd", data="rd"), init_reset=sb.mregs, funcs=FUNCS + (["litex.soc.cores.uart._get_uart_fifo"] if kind == "uartfifo" else []),
              cfg=dict(depth=depth, buffered=buffered, kind=kind), show=sb.showl, vcycles=40)
 
@@ -262,6 +266,7 @@ def jobs(tier):
         js.append(Job("asyncfifo_d4", build_cdc, dict(depth=4, buffered=False, K=K, kind="asyncfifo"), cost=60, timeout_s=3400))
         js.append(Job("uartfifo_d4", build_cdc, dict(depth=4, buffered=False, K=K, kind="uartfifo"), cost=60, timeout_s=3400))
         js.append(Job("cdc_same_domain_pix_buffered", build_cdc_same_domain, dict(buffered=True, K=20), cost=10))
+        js.append(Job("cdc_d4b_sysclk", build_cdc, dict(depth=4, buffered=True, K=20, third_clock=True), cost=100, timeout_s=3400))
         js.append(Job("cdc_common_rst_d4", build_cdc_rst, dict(depth=4, K=20), cost=80, timeout_s=3400))
         for ch in ("aw", "w", "b", "ar", "r"):
             js.append(Job("axilite_cdc_%s" % ch, build_axil_cdc, dict(K=18, channel=ch), cost=50, timeout_s=3400))
@@ -273,6 +278,7 @@ def jobs(tier):
         for buffered in (False, True):
             js.append(Job("cdc_d4%s" % ("b" if buffered else ""), build_cdc, dict(depth=4, buffered=buffered, K=K), cost=20))
         js.append(Job("uartfifo_d4", build_cdc, dict(depth=4, buffered=False, K=14, kind="uartfifo"), cost=10))
+        js.append(Job("cdc_d4b_sysclk", build_cdc, dict(depth=4, buffered=True, K=16, third_clock=True), cost=30))
         js.append(Job("cdc_same_domain_pix_buffered", build_cdc_same_domain, dict(buffered=True, K=14), cost=5))
         js.append(Job("cdc_common_rst_d4", build_cdc_rst, dict(depth=4, K=14), cost=20))
         for ch in ("aw", "b", "r"):
